@@ -56,8 +56,20 @@ class World:
     def _size(self, I, scalar):
         return I.getattr(scalar, "_size")
 
+    @staticmethod
+    def _bind(args, kwargs, names):
+        vals = list(args)
+        for nm in names[len(vals):]:
+            if nm in kwargs:
+                vals.append(kwargs[nm])
+            else:
+                break
+        if len(vals) < len(names):
+            raise AnalysisError(f"absmem: scalar helper called without {names[len(vals):]}")
+        return vals[: len(names)]
+
     def h_to_buffer(self, I, args, kwargs):
-        scalar, buffer, offset, value = args[:4]
+        scalar, buffer, offset, value = self._bind(args, kwargs, ["self", "buffer", "offset", "value"])
         n = self._size(I, scalar)
         I.effects.append(Effect("write", pos=P(offset), n=n, value=value, buf=buffer))
         I.mem[key(offset)] = value
@@ -74,7 +86,7 @@ class World:
         return Sym(Poly.atom(f"W[{k}]"))
 
     def h_array_to_buffer(self, I, args, kwargs):
-        scalar, buffer, offset, arr = args[:4]
+        scalar, buffer, offset, arr = self._bind(args, kwargs, ["self", "buffer", "offset", "value"])
         n = self._size(I, scalar)
         if isinstance(arr, SArr) and arr.sym is None:
             flat = arr.flat()
@@ -86,7 +98,7 @@ class World:
         return None
 
     def h_array_from_buffer(self, I, args, kwargs):
-        scalar, buffer, offset, count = args[:4]
+        scalar, buffer, offset, count = self._bind(args, kwargs, ["self", "buffer", "offset", "count"])
         n = self._size(I, scalar)
         I.effects.append(Effect("read_array", pos=P(offset), n=n, count=count, buf=buffer))
         if isinstance(count, int):
